@@ -37,7 +37,12 @@ LEAN = dict(
         "theorems hold for any value type; the driver runs on exact rationals (python ints / floats as fractions)",
     ],
     assumptions=[
-        "values are finite python / numpy ints and floats",
+        "cases compared with the Lean model hold finite python / numpy ints and floats inside the float32 range (exact rationals); "
+        "non-finite values, values beyond the float32 range and sub-normal doubles go through the implementation-only wide block "
+        "(exact comparison, nan is nan, float32 rounding / overflow reproduced with numpy)",
+        "python ints beyond 2**53 are not generated: a table row is a float64 row as soon as one column holds floats, so the table / CSV "
+        "forms cannot hold them (JSON does); identifiers containing a bare carriage return / line feed are not generated on the CSV path "
+        "(pandas' writer does not quote a lone \\r): text layer of the file format, not modelled",
         "numpy float32 scalars are not generated on the CSV path: pandas writes an all-float32 column with 9 significant digits, "
         "which identifies the float32 but not its expansion as a double (the value comes back equal to single precision only); "
         "numpy int32 beyond 2**24 is not generated: pandas infers float32 for a column mixing np.int32 and np.float32",
@@ -91,7 +96,8 @@ def frac(env, v):
     if isinstance(v, (int, np.integer)):
         return Fraction(int(v))
     if isinstance(v, (float, np.floating)):
-        return Fraction(float(v))
+        v = float(v)
+        return Fraction(v) if v == v and abs(v) != float("inf") else None      # (non-finite: wide block only, printed as "?")
     return None
 
 
@@ -179,14 +185,20 @@ def mk_num(env, q, tag):
 
 def mk_bad(env, kind):
     np = env["np"]
+    if kind == "tensor":
+        return env["torch"].tensor([1.0, 2.0])
     return {"str": "a", "bool": True, "none": None, "dict": {}, "nested": [1.0], "nd2": np.zeros((1, 2)),
-            "complex": 1j}[kind]
+            "complex": 1j, "tuple": (1.0, 2.0), "set": {1.0}, "npbool": np.bool_(True), "f16": np.float16(0.5), "decimal": Fraction(1, 2),
+            "nd_bool": np.array([True, False]), "nd_str": np.array(["a"]), "nd_obj": np.array([None, 1.0], dtype=object),
+            "nd21": np.zeros((2, 1))}[kind]
 
 
 def mk_value(env, v):
     np = env["np"]
     if v[0] == "num":
-        return mk_num(env, v[1], v[2])
+        x = mk_num(env, v[1], v[2])
+        # a scalar handed over as a 0-d numpy array (`tolist()` makes it the python number again)
+        return np.array(x) if len(v) > 3 and v[3] == "nd0" else x
     if v[0] == "bad":
         return mk_bad(env, v[1])
     elems = [mk_num(env, e[1], e[2]) if e[0] == "num" else mk_bad(env, e[1]) for e in v[1]]
@@ -205,7 +217,8 @@ def lean_value(v) -> str:
     if v[0] == "num":
         return "q" + fmt_rat(Fraction(v[1]))
     if v[0] == "bad":
-        return "lb" if v[1] == "nd2" else "b"     # a 2-D array is `tolist()`-ed into a list of lists
+        # a 2-D array is `tolist()`-ed into a list of lists, an array of booleans / strings / objects into a list of those
+        return "lb" if v[1] in ("nd2", "nd21", "nd_bool", "nd_str", "nd_obj") else "b"
     return "l" + ":".join(fmt_rat(Fraction(e[1])) if e[0] == "num" else "b" for e in v[1])
 
 
@@ -231,6 +244,19 @@ def shape_of(v):
     return () if v[0] == "num" else (len(v[1]),)
 
 
+def expected_container(adds):
+    """(ids, {id: {name: (shape, [fractions])}}) the property says the container must hold after these additions: exactly the
+    accepted ones, in order, with the numbers that were handed over (from the case description, not from the implementation)."""
+    rej = set(expected_rejections(adds))
+    ids, vals = [], {}
+    for k, (i, p) in enumerate(adds):
+        if k in rej:
+            continue
+        ids.append(i[1])
+        vals[i[1]] = {n: (shape_of(v), [Fraction(v[1])] if v[0] == "num" else [Fraction(e[1]) for e in v[1]]) for n, v in p}
+    return ids, vals
+
+
 def expected_rejections(adds):
     """Indices of the additions the property says must be refused (independent of the Lean model)."""
     seen, shapes, rej = [], None, []
@@ -254,12 +280,34 @@ def build_impl(env, adds):
     """All additions in order; returns (container, ['k:class', …], [failures of 'a refusal leaves no trace'])."""
     ip = env["IP"]()
     rej, fails = [], []
+    buf = {}
     for k, (i, p) in enumerate(adds):
         before = canon_container(env, ip)
         pid = mk_id(i)
         par = [1.0] if p == "notdict" else {n: mk_value(env, v) for n, v in p}
+        if isinstance(par, dict) and k % 3 == 1:
+            # the caller fills ONE dictionary object again and again (a row buffer) and adds it for each individual
+            buf.clear()
+            buf.update(par)
+            par = buf
         try:
             ip.add_individual_parameters(pid, par)
+            if isinstance(par, dict):
+                # ... and goes on using its dictionary afterwards: the container holds its own values
+                held = canon_container(env, ip)
+                for n in list(par):
+                    v = par[n]
+                    if isinstance(v, list):
+                        # (a list value itself is kept by reference upstream: only the dictionary is re-used here)
+                        par[n] = [x + 5 if isinstance(x, (int, float)) and not isinstance(x, bool) else x for x in v] + [99.0]
+                    elif isinstance(v, (int, float)) and not isinstance(v, bool):
+                        par[n] = v + 5
+                    elif hasattr(v, "dtype") and getattr(v, "size", 0) and v.dtype.kind in "fiu" and getattr(v, "flags", None) is not None and v.flags.writeable:
+                        v += 5
+                par["__added_later__"] = 1.0
+                if canon_container(env, ip) != held:
+                    fails.append(f"addition #{k}: the container follows later changes of the dictionary the caller handed over")
+                par.pop("__added_later__", None)
         except Exception as e:  # noqa
             rej.append(f"{k}:{err_class(env, e)[4:]}")
             if canon_container(env, ip) != before:
@@ -385,6 +433,29 @@ def run_path(env, chk, case, tmpdir):
     prefix = f"rej={flist(rej)} "
     orig_ids = list(ip._indices)
     orig = original_values(env, ip)
+    # the container holds what was handed over: identifiers verbatim and in order, names, shapes, numbers (the reference is the
+    # case description; float32 scalars are handed over as the double they are)
+    if got == exp:
+        want_ids, want = expected_container(adds)
+        if orig_ids != want_ids or any(type(i) is not str and not isinstance(i, str) for i in orig_ids):
+            chk.impl_failure(cj, f"after the additions the container lists {orig_ids!r}, handed over: {want_ids!r}")
+        else:
+            for i in want_ids:
+                if sorted(orig[i]) != sorted(want[i]):
+                    chk.impl_failure(cj, f"id {i!r}: the container holds parameters {sorted(orig[i])}, handed over: {sorted(want[i])}")
+                    break
+                bad = next((n for n in want[i] if orig[i][n] != want[i][n]), None)
+                if bad is not None:
+                    chk.impl_failure(cj, f"id {i!r} parameter {bad!r}: the container holds {orig[i][bad]}, handed over: {want[i][bad]}")
+                    break
+            for i in want_ids:
+                try:
+                    if ip[i] is not ip._individual_parameters[i] and ip[i] != ip._individual_parameters[i]:
+                        chk.impl_failure(cj, f"container[{i!r}] is not the dictionary held for {i!r}")
+                except Exception as e:  # noqa
+                    chk.impl_failure(cj, f"container[{i!r}] raised {type(e).__name__} for an identifier it lists")
+            if [k for k, _ in ip.items()] != want_ids:
+                chk.impl_failure(cj, f"items() lists {[k for k, _ in ip.items()]!r}, identifiers are {want_ids!r}")
     nonempty = ip._parameters_shape is not None
     case["names"] = list(ip._parameters_shape) if nonempty else []
     case["has_scalar"] = nonempty and any(s == () for s in ip._parameters_shape.values())
@@ -595,6 +666,9 @@ def case_json(case):
 # ------------------------------------------------------------------ generators
 IDS = ["001", "1e3", "0", "-1", "1.0", "7", "id 1", "a,b", 'q"q', "é", " x ", "S-12", "NA", "null", "nan", "None", "", "N/A",
        "True", "1_000", "0x10", "idx", "sub-01", "A" * 40]
+# identifiers that a normalisation (strip, lower-casing, numeric parsing, unicode folding) would merge: all distinct strings
+ID_FAMILIES = [["1", "1.0", "01", "1e0", "+1", " 1", "1 "], ["x", " x", "x ", "X", "x\t"], ["é", "e\u0301", "E\u0301", "É"],
+               ["nan", "NaN", "NAN", "NA", "N/A", "<NA>", "null", "None", ""], ["0", "-0", "0.0", "00", "False"], ["a\nb", "a b", "a\tb", "a  b"]]
 PLAIN = ["xi", "tau", "sources", "source", "resources", "w", "z0", "tausource", "B2", "ID2", "x"]
 UNDER = ["log_v0", "tau_0", "xi_", "_w", "a_b", "a_0", "a", "sources_extra", "noise_std", "v_0_1"]
 
@@ -616,16 +690,23 @@ def gen_num(rng, tag=None, dyadic=True):
         q = Fraction(rng.randrange(-2 ** 30, 2 ** 30), 2 ** rng.randrange(0, 28)) if rng.random() < 0.3 else \
             Fraction(rng.randrange(-4096, 4096), 2 ** rng.randrange(0, 11))
         return ["num", str(q), tag]
-    x = rng.choice([0.1, 70.3, -0.3, 1e-3, 123456.789, 1 / 3, 2.5e-7, 66.6])
+    if rng.random() < 0.5:
+        x = rng.choice([0.1, 70.3, -0.3, 1e-3, 123456.789, 1 / 3, 2.5e-7, 66.6])
+    else:
+        # any double: full mantissa, magnitudes over many decades (inside the float32 range: the tensor path rounds it)
+        x = rng.choice([rng.uniform(-100, 100), rng.gauss(0, 1) * 10.0 ** rng.randrange(-30, 31), 0.1 + 0.2, 1e16 + 2, 2.0 ** 53, 1e-37, -3e38,
+                        1.1754943508222875e-38, 7e-46, 16777217.0])
     return ["num", str(Fraction(x)), tag]
 
 
 def gen_value(rng, shape, dyadic):
     if shape == ():
-        return gen_num(rng, dyadic=dyadic)
-    tag = rng.choice(["float", "float", "mixed", "int", "f32"])
+        v = gen_num(rng, dyadic=dyadic)
+        return v + ["nd0"] if rng.random() < 0.12 else v
+    tag = rng.choice(["float", "float", "mixed", "int", "f32", "f64", "i64"])
     elems = [gen_num(rng, None if tag == "mixed" else tag, dyadic) for _ in range(shape[0])]
-    cont = "ndarray" if tag in ("float", "int") and rng.random() < 0.25 else "list"
+    # numpy arrays of every supported dtype (a "mixed" array is promoted by numpy: the exact double is what must arrive)
+    cont = "ndarray" if tag != "mixed" and not (NO_F32 and tag == "f32") and rng.random() < 0.3 else "list"
     return ["list", elems, cont]
 
 
@@ -650,6 +731,12 @@ def gen_container_case(rng, path):
             shapes[n] = rng.choice([(), (1,), (1,), (2,), (4,)])
     n_ids = rng.choice([0, 1, 1, 2, 3, 3, 5, 8])
     ids = rng.sample(IDS, n_ids)
+    if n_ids >= 2 and rng.random() < 0.3:
+        fam = rng.choice(ID_FAMILIES)
+        ids = rng.sample(fam, min(len(fam), n_ids))
+        if path == "csv":
+            # (a bare carriage return / line feed inside a field is the CSV text layer's matter, see LEAN["assumptions"])
+            ids = [i for i in ids if "\n" not in i and "\r" not in i]
     adds = []
     for i in ids:
         order = list(names)
@@ -669,7 +756,7 @@ def gen_container_case(rng, path):
         elif kind == "notdict":
             base = "notdict"
         elif kind == "badscalar":
-            base[0] = [base[0][0], ["bad", rng.choice(["str", "bool", "none", "dict", "complex"])]]
+            base[0] = [base[0][0], ["bad", rng.choice(["str", "bool", "none", "dict", "complex", "tuple", "set", "tensor", "npbool", "f16", "decimal"])]]
         elif kind == "badelem":
             base[0] = [base[0][0], ["list", [gen_num(rng, "float"), ["bad", rng.choice(["str", "nested", "none", "bool"])]], "list"]]
         elif kind == "badhead":
@@ -677,7 +764,7 @@ def gen_container_case(rng, path):
         elif kind == "empty":
             base[0] = [base[0][0], ["list", [], "list"]]
         elif kind == "nd2":
-            base[0] = [base[0][0], ["bad", "nd2"]]
+            base[0] = [base[0][0], ["bad", rng.choice(["nd2", "nd21", "nd_bool", "nd_str", "nd_obj"])]]
         elif kind == "shape":
             s = shapes[names[0]]
             base[0] = [names[0], gen_value(rng, (s[0] + 1,) if s else (1,), dyadic)] if rng.random() < 0.7 else \
@@ -752,8 +839,364 @@ def fixed_cases():
     return out
 
 
+# ------------------------------------------------------------------ wide block (implementation only, no Lean line)
+# What the exact-rational driver cannot express (non-finite values, values beyond the float32 range) and what is not a conversion of
+# the model (copies, sub-selection, file naming, options of save, other dtypes / containers of the from_* inputs, process state).
+# The reference is always the case description.
+F111 = "F111"
+F112 = "F112"
+WIDE_NAMES = ["xi", "tau", "sources", "w", "é t", "a,b", 'q"q', "x.1", "0", "tau.1", " lead", "UPPER", "x;y", "source", "B2"]
+WIDE_SPECIAL = [float("nan"), float("inf"), -float("inf"), 1e300, -1e300, 5e-324, 2.2250738585072014e-308, 1.7976931348623157e308,
+                3.4028235677973366e38, 1e39, 1e-46, -0.0, 0.1 + 0.2, 9007199254740992.0]
+
+
+def wv(t):
+    return int(t[1:]) if t.startswith("#") else float.fromhex(t)
+
+
+def wt(x):
+    return f"#{x}" if isinstance(x, int) else float(x).hex()
+
+
+def gen_wide(rng):
+    n_par = rng.randrange(1, 4)
+    names = rng.sample(WIDE_NAMES, n_par)
+    if rng.random() < 0.06:
+        names[0] = rng.choice(["ID", ""])         # F111 region
+    shapes = {n: rng.choice([None, 1, 1, 2, 3, 12]) if rng.random() < 0.3 else rng.choice([1, 2, 3]) for n in names}
+    fam = rng.choice(ID_FAMILIES)
+    pool = list(dict.fromkeys(IDS + fam))
+    ids = rng.sample(pool, rng.randrange(1, 6))
+    special = rng.random() < 0.6
+
+    def num():
+        r = rng.random()
+        if special and r < 0.3:
+            return wt(rng.choice(WIDE_SPECIAL))
+        if r < 0.45:
+            return wt(rng.choice([0, 1, -1, 70, 2 ** 24 + 1, 2 ** 31, -(2 ** 40) - 1, 2 ** 53]))
+        return wt(rng.gauss(0, 1) * 10.0 ** rng.randrange(-12, 13))
+    vals = {i: {n: (num() if shapes[n] is None else [num() for _ in range(shapes[n])]) for n in names} for i in ids}
+    return {"path": "wide", "ids": ids, "names": names, "shapes": shapes, "vals": vals,
+            "via": rng.choice(["none", "none", "deepcopy", "pickle", "subset-list", "subset-tuple", "subset-nocopy"]),
+            "cont": rng.choice(["list", "list", "ndarray", "npstr-id"]),
+            "state": rng.choice(["none", "none", "none", "torch-f64", "pandas-infer-string", "pandas-cow"]),
+            "wseed": rng.randrange(10 ** 6)}
+
+
+def num_same(a, b, f32=False):
+    """the same number (int / float type aside); nan is nan; through float32 when tensors are involved"""
+    import math
+    import numpy as np
+    if isinstance(a, bool) or isinstance(b, bool) or not isinstance(a, (int, float)) or not isinstance(b, (int, float, np.integer, np.floating)):
+        return False
+    if f32:
+        with np.errstate(over="ignore"):
+            a = float(np.float32(a))
+    b = b.item() if isinstance(b, np.generic) else b
+    if isinstance(a, float) and math.isnan(a):
+        return isinstance(b, float) and math.isnan(b)
+    return a == b
+
+
+def wide_compare(case, want_ids, want, back, f32, tolerate_len1):
+    """failures of one round trip; `tolerate_len1`: a scalar that comes back as a one-element list is finding F12, listed apart"""
+    fails, f12 = [], []
+    if list(back._indices) != want_ids or any(not isinstance(i, str) for i in back._indices):
+        return [f"identifiers {list(back._indices)!r}, handed over {want_ids!r}"], f12
+    for i in want_ids:
+        got = back._individual_parameters.get(i)
+        if got is None or sorted(got) != sorted(want[i]):
+            fails.append(f"id {i!r}: parameter names {None if got is None else sorted(got)}, handed over {sorted(want[i])}")
+            continue
+        for n, v in want[i].items():
+            g = got[n]
+            if not isinstance(v, list) and isinstance(g, list) and len(g) == 1 and tolerate_len1:
+                f12.append(f"id {i!r} parameter {n!r}: scalar comes back as a one-element list")
+                g = g[0]
+            if isinstance(v, list) != isinstance(g, list) or (isinstance(v, list) and len(v) != len(g)):
+                fails.append(f"id {i!r} parameter {n!r}: shape changes ({g!r} for {v!r})")
+            elif not all(num_same(a, b, f32) for a, b in zip(v if isinstance(v, list) else [v], g if isinstance(g, list) else [g])):
+                fails.append(f"id {i!r} parameter {n!r}: {g!r} for {v!r}" + (" (beyond single precision)" if f32 else ""))
+    return fails, f12
+
+
+class _State:
+    """ambient process state for one case, always restored"""
+
+    def __init__(self, env, which):
+        self.env, self.which, self.ctx = env, which, None
+
+    def __enter__(self):
+        torch, pd = self.env["torch"], self.env["pd"]
+        if self.which == "torch-f64":
+            self.old = torch.get_default_dtype()
+            torch.set_default_dtype(torch.float64)
+        elif self.which == "pandas-infer-string":
+            self.ctx = pd.option_context("future.infer_string", True)
+            self.ctx.__enter__()
+        elif self.which == "pandas-cow":
+            self.ctx = pd.option_context("mode.copy_on_write", True)
+            self.ctx.__enter__()
+
+    def __exit__(self, *a):
+        if self.which == "torch-f64":
+            self.env["torch"].set_default_dtype(self.old)
+        elif self.ctx is not None:
+            self.ctx.__exit__(*a)
+        return False
+
+
+def run_wide(env, chk, case, tmpdir):
+    import copy
+    import json
+    import pickle
+    import random
+    np, pd, torch, IP = env["np"], env["pd"], env["torch"], env["IP"]
+    rng = random.Random(case["wseed"])
+    cj = dict(case)
+    ids, names, shapes = list(case["ids"]), list(case["names"]), case["shapes"]
+    want = {i: {n: ([wv(t) for t in case["vals"][i][n]] if shapes[n] is not None else wv(case["vals"][i][n])) for n in names} for i in ids}
+    in_f111 = any(n in ("ID", "") for n in names)
+    has_scalar = any(shapes[n] is None for n in names)
+    tags = {"path": "wide", "wide_via": case["via"], "wide_state": case["state"], "wide_f111": in_f111}
+
+    def fail(what, finding=None):
+        chk.impl_failure(cj, what, finding=finding)
+
+    def handed(i):
+        d = {}
+        for n in names:
+            v = want[i][n]
+            if case["cont"] == "ndarray" and isinstance(v, list) and all(isinstance(x, float) for x in v):
+                v = np.array(v, dtype=np.float64)
+            else:
+                v = copy.deepcopy(v)
+            d[n] = v
+        return d
+    with _State(env, case["state"]):
+        ip = IP()
+        try:
+            for i in ids:
+                ip.add_individual_parameters(np.str_(i) if case["cont"] == "npstr-id" else i, handed(i))
+        except Exception as e:  # noqa
+            fail(f"a well-formed addition is refused: {type(e).__name__}: {str(e)[:100]}")
+            chk.case(("wide", json.dumps(cj, sort_keys=True)[:400]), nontrivial=True, tags=tags)
+            return
+        # ---- the container behind a copy / a pickle / a sub-selection of everybody is the same container
+        via = case["via"]
+        try:
+            if via == "deepcopy":
+                ip = copy.deepcopy(ip)
+            elif via == "pickle":
+                ip = pickle.loads(pickle.dumps(ip))
+            elif via == "subset-list":
+                ip = ip.subset(list(ids))
+            elif via == "subset-tuple":
+                ip = ip.subset(tuple(ids))
+            elif via == "subset-nocopy":
+                ip = ip.subset(list(ids), copy=False)
+        except Exception as e:  # noqa
+            fail(f"{via} of a valid container raised {type(e).__name__}: {str(e)[:100]}")
+            chk.case(("wide", json.dumps(cj, sort_keys=True)[:400]), nontrivial=True, tags=tags)
+            return
+        f, _ = wide_compare(case, ids, want, ip, False, False)
+        for x in f[:2]:
+            fail(f"container ({via}): {x}")
+        # ---- sub-selection: the requested identifiers, in the requested order, same values; refusals; source untouched
+        if len(ids) >= 2:
+            sel = rng.sample(ids, rng.randrange(1, len(ids) + 1))
+            before = canon_container(env, ip) if not any(isinstance(v, float) and v != v for d in want.values() for vv in d.values()
+                                                         for v in (vv if isinstance(vv, list) else [vv])) else None
+            for how, arg in (("list", list(sel)), ("tuple", tuple(sel)), ("generator", (x for x in sel)), ("dict keys", dict.fromkeys(sel).keys())):
+                try:
+                    sub = ip.subset(arg, copy=rng.random() < 0.7)
+                except Exception as e:  # noqa
+                    fail(f"subset({how} of known identifiers) raised {type(e).__name__}: {str(e)[:80]}")
+                    continue
+                f, _ = wide_compare(case, sel, {i: want[i] for i in sel}, sub, False, False)
+                for x in f[:1]:
+                    # F112 region: exactly "a generator gives the empty container"
+                    fail(f"subset({how} {sel!r}): {x}", finding=F112 if (how == "generator" and list(sub._indices) == []) else None)
+            for bad, what in (([sel[0], "no-such-id"], "an unknown identifier"), ([sel[0], sel[0]], "an identifier twice")):
+                try:
+                    ip.subset(bad)
+                    fail(f"subset with {what} is accepted")
+                except Exception as e:  # noqa
+                    if err_class(env, e) != "err:input":
+                        fail(f"subset with {what} raised {type(e).__name__}, documented: input error")
+            if before is not None and canon_container(env, ip) != before:
+                fail("subset modified the source container")
+        # ---- dictionary form
+        for bad in (3, None, "no-such-id"):
+            try:
+                ip[bad]
+                fail(f"container[{bad!r}] is accepted")
+            except Exception as e:  # noqa
+                if err_class(env, e) != "err:input":
+                    fail(f"container[{bad!r}] raised {type(e).__name__}, documented: input error")
+        # ---- every conversion, on this one object, in a random order; then one more individual; then every conversion again
+        extra_id = "zz-late"
+        rounds = [(list(ids), dict(want))]
+        late = {n: ([float(k) + 0.5 for k in range(shapes[n])] if shapes[n] is not None else 2.5) for n in names}
+        rounds.append((list(ids) + [extra_id], dict(want, **{extra_id: late})))
+        sub = os.path.join(tmpdir, "run.1", "v2.x")         # directories with dots in their names
+        os.makedirs(sub, exist_ok=True)
+        for rno, (w_ids, w) in enumerate(rounds):
+            if rno == 1:
+                try:
+                    ip.add_individual_parameters(extra_id, copy.deepcopy(late))
+                except Exception as e:  # noqa
+                    fail(f"a late, well-formed addition is refused: {type(e).__name__}: {str(e)[:80]}")
+                    break
+            order = ["table", "csv", "csv-noext", "json", "json-kw", "torch"]
+            rng.shuffle(order)
+            for pth in order:
+                stem = os.path.join(sub, f"w{chk.evaluations}_{rno}")
+                via_table = pth in ("table", "csv", "csv-noext")
+                try:
+                    if pth == "table":
+                        back = IP.from_dataframe(ip.to_dataframe())
+                    elif pth == "csv":
+                        ip.save(stem + ".file.csv")
+                        back = IP.load(stem + ".file.csv")
+                    elif pth == "csv-noext":
+                        # documented: without extension the default one (csv) is appended
+                        if os.path.exists(stem + ".csv"):
+                            os.remove(stem + ".csv")
+                        ip.save(stem)
+                        if not os.path.exists(stem + ".csv") or os.path.exists(stem):
+                            fail("save(path without extension) did not write <path>.csv")
+                            continue
+                        back = IP.load(stem + ".csv")
+                    elif pth == "json":
+                        ip.save(stem + ".json")
+                        back = IP.load(stem + ".json")
+                    elif pth == "json-kw":
+                        kw = rng.choice([dict(indent=None), dict(sort_keys=True), dict(indent=4, sort_keys=True), dict(ensure_ascii=False),
+                                         dict(separators=(",", ":"))])
+                        tags["wide_json_kw"] = sorted(kw)[0]
+                        ip.save(stem + ".kw.json", **kw)
+                        back = IP.load(stem + ".kw.json")
+                    else:
+                        t_ids, d = ip.to_pytorch()
+                        if list(t_ids) != w_ids:
+                            fail(f"to_pytorch identifiers {list(t_ids)!r}, handed over {w_ids!r}")
+                        for n, tns in d.items():
+                            if tns.dtype != torch.float32 or tns.shape != (len(w_ids), shapes[n] or 1):
+                                fail(f"to_pytorch[{n!r}] is {tns.dtype} {tuple(tns.shape)}, expected float32 {(len(w_ids), shapes[n] or 1)}")
+                        back = IP.from_pytorch(list(t_ids), d)
+                except Exception as e:  # noqa
+                    fail(f"{pth} round trip of a valid container raised {type(e).__name__}: {str(e)[:100]}",
+                         finding=F111 if (in_f111 and via_table) else None)
+                    continue
+                f, f12 = wide_compare(case, w_ids, w, back, pth == "torch", pth in ("table", "csv", "csv-noext", "torch"))
+                for x in f[:2]:
+                    fail(f"{pth} round trip (round {rno}): {x}", finding=F111 if (in_f111 and via_table) else None)
+                for x in f12[:1]:
+                    fail(f"{pth} round trip: {x}", finding=F12)
+                if not f and not f12:
+                    still_a_container(env, chk, cj, back, f"from the {pth} form")
+            f, _ = wide_compare(case, w_ids, w, ip, False, False)
+            for x in f[:1]:
+                fail(f"the conversions modified the source container: {x}")
+        # ---- refusals: unsupported extension on both sides, nothing written
+        for bad in ("x.txt", "x.CSV", "x.json.bak"):
+            q = os.path.join(sub, bad)
+            try:
+                ip.save(q)
+                fail(f"save({bad!r}) is accepted (documented: csv or json only)")
+            except Exception as e:  # noqa
+                if err_class(env, e) != "err:input":
+                    fail(f"save({bad!r}) raised {type(e).__name__}, documented: input error")
+            if os.path.exists(q):
+                fail(f"refused save({bad!r}) left a file behind")
+            try:
+                IP.load(q)
+                fail(f"load({bad!r}) is accepted")
+            except Exception as e:  # noqa
+                if err_class(env, e) != "err:input":
+                    fail(f"load({bad!r}) raised {type(e).__name__}, documented: input error")
+        try:
+            IP.load(os.path.join(sub, "noextension"))
+            fail("load(path without extension) is accepted")
+        except Exception as e:  # noqa
+            if err_class(env, e) != "err:input":
+                fail(f"load(path without extension) raised {type(e).__name__}, documented: input error")
+    chk.case(("wide", json.dumps(cj, sort_keys=True)[:400]), nontrivial=True, tags=tags)
+
+
+def gen_from_inputs(rng):
+    n = rng.randrange(1, 5)
+    ids = rng.sample(list(dict.fromkeys(IDS + rng.choice(ID_FAMILIES))), n)
+    cols = {}
+    for name in rng.sample(["xi", "tau", "sources", "w", "B2"], rng.randrange(1, 4)):
+        width = rng.choice([1, 1, 2, 3])
+        kind = rng.choice(["f64", "f64", "f32", "i64", "np64", "np32"])
+        cols[name] = [kind, [[(float(rng.randrange(-2 ** 20, 2 ** 20)) / 2 ** rng.randrange(0, 12)) if kind in ("f32", "np32") else
+                              (rng.randrange(-10 ** 6, 10 ** 6) if kind == "i64" else rng.gauss(0, 1) * 10.0 ** rng.randrange(-10, 11))
+                              for _ in range(width)] for _ in range(n)]]
+    return {"path": "wide-from", "ids": ids, "cols": {k: [v[0], [[wt(x) for x in r] for r in v[1]]] for k, v in cols.items()},
+            "idcont": rng.choice(["list", "tuple", "ndarray", "index"]), "index": rng.choice(["object", "string", "named", "categorical"])}
+
+
+def run_from_inputs(env, chk, case):
+    """from_pytorch / from_dataframe fed with every dtype and container they accept: identifiers verbatim and in order, every number
+    exactly as it was in the input (a float64 tensor is not narrowed, an int64 stays an integer value)."""
+    import json
+    np, pd, torch, IP = env["np"], env["pd"], env["torch"], env["IP"]
+    cj = dict(case)
+    ids = list(case["ids"])
+    cols = {k: (v[0], [[wv(t) for t in r] for r in v[1]]) for k, v in case["cols"].items()}
+    want = {i: {k: list(rows[r]) for k, (_, rows) in cols.items()} for r, i in enumerate(ids)}
+    idarg = {"list": list(ids), "tuple": tuple(ids), "ndarray": np.array(ids, dtype=object), "index": pd.Index(ids, dtype=object)}[case["idcont"]]
+    d = {}
+    for k, (kind, rows) in cols.items():
+        d[k] = {"f64": lambda: torch.tensor(rows, dtype=torch.float64), "f32": lambda: torch.tensor(rows, dtype=torch.float32),
+                "i64": lambda: torch.tensor(rows, dtype=torch.int64), "np64": lambda: np.array(rows, dtype=np.float64),
+                "np32": lambda: np.array(rows, dtype=np.float32)}[kind]()
+    try:
+        back = IP.from_pytorch(idarg, d)
+        f, _ = wide_compare(case, ids, want, back, False, False)
+        for x in f[:2]:
+            chk.impl_failure(cj, f"from_pytorch ({case['idcont']} of identifiers): {x}")
+        still_a_container(env, chk, cj, back, "by from_pytorch")
+    except Exception as e:  # noqa
+        chk.impl_failure(cj, f"from_pytorch refused a well-formed input: {type(e).__name__}: {str(e)[:100]}")
+    # the same numbers as a table: one column per component, the dtypes of the columns as given
+    data = {}
+    for k, (kind, rows) in cols.items():
+        dt = {"f64": np.float64, "np64": np.float64, "f32": np.float32, "np32": np.float32, "i64": np.int64}[kind]
+        w = len(rows[0])
+        for c in range(w):
+            data[k if w == 1 else f"{k}_{c}"] = np.array([r[c] for r in rows], dtype=dt)
+    index = {"object": lambda: pd.Index(ids, dtype=object), "string": lambda: pd.Index(ids, dtype="string"),
+             "named": lambda: pd.Index(ids, dtype=object, name="subject"), "categorical": lambda: pd.CategoricalIndex(ids)}[case["index"]]()
+    want_t = {i: {k: v for k, v in dd.items()} for i, dd in want.items()}
+    try:
+        back = IP.from_dataframe(pd.DataFrame(data, index=index))
+        f, _ = wide_compare(case, ids, want_t, back, False, False)
+        for x in f[:2]:
+            chk.impl_failure(cj, f"from_dataframe ({case['index']} index): {x}")
+    except Exception as e:  # noqa
+        chk.impl_failure(cj, f"from_dataframe refused a well-formed table: {type(e).__name__}: {str(e)[:100]}")
+    chk.case(("wide-from", json.dumps(cj, sort_keys=True)[:400]), nontrivial=True, tags={"path": "wide-from", "from_idcont": case["idcont"],
+                                                                                        "from_index": case["index"]})
+
+
 # ------------------------------------------------------------------ main
 def execute(env, chk, cases, tmpdir):
+    wide = [c for c in cases if c["path"] in ("wide", "wide-from")]
+    cases = [c for c in cases if c["path"] not in ("wide", "wide-from")]
+    for c in wide:
+        try:
+            run_wide(env, chk, c, tmpdir) if c["path"] == "wide" else run_from_inputs(env, chk, c)
+        except core.Infra:
+            raise
+        except Exception as e:  # noqa
+            chk.impl_failure(dict(c), f"unexpected {type(e).__name__} while exercising the implementation: {e}")
+    if not cases:
+        return
     impl = []
     for c in cases:
         try:
@@ -807,6 +1250,30 @@ def probes(env, chk, tmpdir):
             chk.note("finding F12 no longer reproduces")
     except Exception as e:  # noqa
         chk.note(f"F12 probe raised {type(e).__name__}")
+    ip = IP()
+    ip.add_individual_parameters("a", {"ID": [1.5], "xi": [0.5]})
+    try:
+        p = os.path.join(tmpdir, "f111.csv")
+        ip.save(p)
+        back = IP.load(p)
+        if back._indices == ["a"] and back._individual_parameters["a"] == {"ID": [1.5], "xi": [0.5]}:
+            chk.note("finding F111 no longer reproduces")
+        else:
+            chk.known_finding_reproduces(F111, f"parameter named 'ID': the CSV file comes back with identifiers {back._indices} and "
+                                               f"parameters {list(back._parameters_shape)}")
+    except Exception as e:  # noqa
+        chk.known_finding_reproduces(F111, f"parameter named 'ID': CSV round trip raised {type(e).__name__}: {str(e)[:80]}")
+    ip = IP()
+    ip.add_individual_parameters("a", {"tau": [1.0]})
+    ip.add_individual_parameters("b", {"tau": [2.0]})
+    try:
+        sub = ip.subset(i for i in ["a", "b"])
+        if sub._indices == ["a", "b"]:
+            chk.note("finding F112 no longer reproduces")
+        else:
+            chk.known_finding_reproduces(F112, f"subset(generator over 'a', 'b') holds {sub._indices}")
+    except Exception as e:  # noqa
+        chk.note(f"F112 probe raised {type(e).__name__}")
 
 
 def run(chk: core.Check):
@@ -817,7 +1284,16 @@ def run(chk: core.Check):
                 "seeded invalid additions (duplicate / non-string id, non-dict, unsupported scalar / element, empty list, wrong "
                 "shape, missing / extra key); each container goes through one of build / table / csv-file / torch / json-file / json-file with re-ordered individuals then tensors; "
                 "plus hand-made tables and tensor dicts for from_dataframe / from_pytorch. Every case is compared exactly with "
-                "the Lean model. Non-trivial: at least one addition (or a direct from_* case); distinct by the full request line.")
+                "the Lean model; the container after the additions is also compared with the case description itself (identifiers verbatim, "
+                "numbers as handed over). Values: dyadic, decimals, any double inside the float32 range; numpy arrays of every supported "
+                "dtype, 0-d arrays; identifiers also drawn from families a normalisation would merge ('1' / '1.0' / '01', 'x' / ' x' / 'X', "
+                "NFC / NFD, NA-like). Wide block (implementation only): nan / +-inf / 1e300 / sub-normals / beyond float32, one container "
+                "object taken through a copy (deepcopy / pickle / subset of everybody), sub-selections (list / tuple / generator / dict "
+                "keys, unknown and repeated identifiers), every conversion in random order, one late addition, every conversion again; "
+                "files without extension / in dotted directories / with json.dump keywords; unsupported extensions; from_pytorch and "
+                "from_dataframe fed with float64 / float32 / int64 tensors, numpy arrays, identifiers as list / tuple / array / Index, "
+                "object / string / named / categorical index; ambient torch default dtype float64, pandas infer_string / copy-on-write. "
+                "Non-trivial: at least one addition (or a direct from_* case); distinct by the full request line.")
     tmpdir = tempfile.mkdtemp(prefix="verif_C16_files_")
     try:
         cases = []
@@ -832,6 +1308,9 @@ def run(chk: core.Check):
         for _ in range(n):
             cases.append(gen_fromtable(rng))
             cases.append(gen_fromtorch(rng))
+        for _ in range(n):
+            cases.append(gen_wide(rng))
+            cases.append(gen_from_inputs(rng))
         execute(env, chk, cases, tmpdir)
         probes(env, chk, tmpdir)
     finally:
